@@ -380,9 +380,9 @@ Definition ogg_f_decode (c : ogg_codec) (pk : list Z) : result (vc * Z) :=
         | OVorbis => match rest with
                      | b :: pad => if ogg_f_odd b && ogg_f_all_zero pad then Ok (t, zlen pad) else Raise EMutagen
                      | [] => Raise EMutagen end
-        | OOpus => match rest with
-                   | b :: _ => if ogg_f_odd b then Ok (t, -1)
-                               else if ogg_f_all_zero rest then Ok (t, zlen rest) else Raise EMutagen
+        | OOpus => (* RFC 7845 5.2: first byte odd = data to preserve; otherwise padding, whatever its bytes *)
+                   match rest with
+                   | b :: _ => if ogg_f_odd b then Ok (t, -1) else Ok (t, zlen rest)
                    | [] => Ok (t, 0) end
         | _ => if ogg_f_all_zero rest then Ok (t, zlen rest) else Raise EMutagen
         end
